@@ -24,6 +24,20 @@ theorem valueUnitsTail_wf (nm : Str) (kind : Kind) (info : TyInfo) (dims : Optio
       exact ⟨fun _ => ⟨rfl, rfl⟩, fun _ _ => rfl⟩
     · cases h
 
+theorem modTail_wf (nm v : Str) (nd : Node) (h : modTail nm v = .ok nd) : NodeWF' nd := by
+  unfold modTail at h
+  simp only [bind, Except.bind] at h
+  cases hp : partValue v with
+  | error e => rw [hp] at h; cases h
+  | ok r =>
+    rw [hp] at h
+    simp only at h
+    split at h
+    · simp only [Except.ok.injEq] at h
+      subst h
+      exact ⟨fun _ => ⟨rfl, rfl⟩, fun _ _ => rfl⟩
+    · split at h <;> cases h
+
 theorem partTypeCore_kind (t : Str) (k : Kind) (i : TyInfo) (r : Str) (h : partTypeCore t = .ok (k, i, r)) :
     k ≠ .mod := by
   unfold partTypeCore at h
@@ -49,7 +63,7 @@ theorem afterName_wf (nm rest : Str) (nd : Node) (h : afterName nm rest = .ok nd
   · split at h
     · split at h <;> cases h
     · split at h
-      · exact valueUnitsTail_wf _ _ _ _ _ _ h
+      · exact modTail_wf _ _ _ h
       · simp only [bind, Except.bind] at h
         cases hpt : partType rest with
         | error e => rw [hpt] at h; cases h
